@@ -30,10 +30,12 @@ type CrowdRec struct {
 	Deliveries int64 `json:"deliveries_to_staying_collectors"`
 	ChurnOps   int64 `json:"subscribe_unsubscribe_pairs"`
 	// RemoveRaces: RemoveTask calls that raced with another RemoveTask of the same task
-	RemoveRaces int64    `json:"racing_remove_task_calls"`
-	Kinds       []string `json:"kinds,omitempty"`
-	Notes       []string `json:"notes,omitempty"`
-	NotJudged   string   `json:"not_judged,omitempty"`
+	RemoveRaces int64 `json:"racing_remove_task_calls"`
+	// LateSubscribers: collectors whose Subscribe call was parked inside the superior while a task was added
+	LateSubscribers int64    `json:"subscribe_calls_overlapping_add_task"`
+	Kinds           []string `json:"kinds,omitempty"`
+	Notes           []string `json:"notes,omitempty"`
+	NotJudged       string   `json:"not_judged,omitempty"`
 }
 
 type crowdCollector struct {
@@ -43,9 +45,23 @@ type crowdCollector struct {
 	got      map[uuid.UUID]int
 	inflight *int64
 	started  *int64
+	gate     chan struct{}
+	entered  chan struct{}
+	gated    int32
 }
 
-func (c *crowdCollector) ID() uuid.UUID { return c.id }
+// ID: a collector with a gate is slow in its first ID() call (the superior asks for the id while it registers the
+// collector): up to 60 ms, or until the gate is opened.
+func (c *crowdCollector) ID() uuid.UUID {
+	if c.gate != nil && atomic.CompareAndSwapInt32(&c.gated, 0, 1) {
+		close(c.entered)
+		select {
+		case <-c.gate:
+		case <-time.After(60 * time.Millisecond): // (the superior may hold its lock while it asks: never park for good)
+		}
+	}
+	return c.id
+}
 func (c *crowdCollector) RequestQualities(ctx context.Context, m *protocol.RequestQualities) error {
 	atomic.AddInt64(c.started, 1)
 	atomic.AddInt64(c.inflight, 1)
@@ -116,12 +132,32 @@ func crowdScenario(rng *vh.Rng, idx int) *CrowdRec {
 		var ch [32]byte
 		copy(ch[:], id[:])
 		req := &protocol.RequestQualities{TaskID: id, Challenge: ch, ParentTarget: big.NewInt(0), ParentSlot: uint64(time.Now().Unix())/poc.PoCSlot + 10, Height: uint64(2000 + r)}
+		// a collector that connects while this task becomes current: its Subscribe call is parked inside the superior
+		// (in the collector's ID method) while the task is added, and let go afterwards
+		late := &crowdCollector{id: uuid.New(), got: map[uuid.UUID]int{}, inflight: &inflight, started: &started, gate: make(chan struct{}), entered: make(chan struct{})}
+		lateDone := make(chan struct{})
+		go func() { ls.Subscribe(ctx, late); close(lateDone) }()
+		lateParked := false
+		select {
+		case <-late.entered:
+			lateParked = true
+		case <-lateDone:
+		case <-time.After(10 * time.Second):
+		}
 		done := make(chan struct{})
 		go func() { ls.AddTask(ctx, uuid.Nil, req); close(done) }()
 		select {
 		case <-done:
 		case <-time.After(120 * time.Second):
 			rec.NotJudged = "AddTask did not return within 120 s"
+			close(late.gate)
+			continue
+		}
+		close(late.gate)
+		select {
+		case <-lateDone:
+		case <-time.After(60 * time.Second):
+			rec.NotJudged = "Subscribe of the late collector did not return within 60 s"
 			continue
 		}
 		// every submission has been made; wait until no delivery is running and none has started for 3 s
@@ -160,6 +196,16 @@ func crowdScenario(rng *vh.Rng, idx int) *CrowdRec {
 			}
 			rec.Deliveries += int64(n)
 		}
+		if lateParked {
+			late.mu.Lock()
+			ln := late.got[id]
+			late.mu.Unlock()
+			rec.LateSubscribers++
+			if ln == 0 {
+				add("broadcast-task-never-delivered-to-collector-that-connected-while-it-was-current", fmt.Sprintf("round %d: a collector whose Subscribe call overlapped AddTask (it was being registered while the task was added) never received the task", r))
+			}
+		}
+		ls.Unsubscribe(ctx, late)
 		if missing > 0 {
 			add("broadcast-task-never-delivered-to-subscribed-collector", fmt.Sprintf("round %d: %d of %d collectors that were subscribed before the task was added never received it (AddTask had returned, no delivery running or started for 3 s)", r, missing, len(stay)))
 		}
